@@ -253,6 +253,12 @@ class RepI:
 
 
 @dataclass(frozen=True)
+class CondI:
+    cond: object
+    items: tuple
+
+
+@dataclass(frozen=True)
 class ListV(V):
     items: tuple = ()
     kind: str = "list"
@@ -295,7 +301,9 @@ def show(v, depth: int = 0) -> str:
     if isinstance(v, One):
         return show(v.value, d) + (" if " + show(v.cond, d) if v.cond is not None else "")
     if isinstance(v, RepI):
-        return "(" + "; ".join(show(i, d) for i in v.body) + ")*@" + show(v.source, d)
+        return "(" + "; ".join(show(i, d) for i in v.body) + ")*" + ("?" if v.broke else "") + "@" + show(v.source, d)
+    if isinstance(v, CondI):
+        return "{" + "; ".join(show(i, d) for i in v.items) + " if " + show(v.cond, d) + "}"
     if isinstance(v, Opaque):
         return v.name + "(" + ", ".join(show(s, d) for s in v.inner) + ")"
     if isinstance(v, ListV):
@@ -421,6 +429,7 @@ class Frame:
         self.live = True
         self.live_cond: list = []
         self.in_loop = 0
+        self.breaks: list = []
 
 
 class Evaluator:
@@ -540,6 +549,12 @@ class Evaluator:
             if not ra and all(isinstance(x, One) for x in rb):
                 nc = negate(cond)
                 return ListV(ia[:i] + tuple(One(x.value, nc if x.cond is None else conj([nc, x.cond])) for x in rb), a.kind)
+            tail = ()
+            if ra:
+                tail += (CondI(cond, ra),)
+            if rb:
+                tail += (CondI(negate(cond), rb),)
+            return ListV(ia[:i] + tail, a.kind)
         return Phi(cond, a, b)
 
     def phi_to_str(self, v):
@@ -642,9 +657,8 @@ class Evaluator:
         elif isinstance(st, ast.ImportFrom):
             return
         elif isinstance(st, ast.Break):
-            fr.env["__broke__"] = Const(True)
+            fr.breaks.append((list(fr.live_cond), dict(fr.env)))
             fr.live = False
-            fr.env["__live_after_break__"] = Const(True)
         elif isinstance(st, ast.FunctionDef):
             fr.env[st.name] = Sym("localfunc", (st.name,))
         elif isinstance(st, ast.Assert):
@@ -714,9 +728,6 @@ class Evaluator:
         else:
             fr.live = False
             fr.live_cond = lc0
-            # propagate loop-break marker
-            if "__live_after_break__" in env_a or "__live_after_break__" in env_b:
-                fr.env = self.join_env(cond, env_a, env_b)
 
     def join_env(self, cond, a: dict, b: dict) -> dict:
         out = {}
@@ -737,8 +748,9 @@ class Evaluator:
                 if not fr.live:
                     return
                 self.assign(st.target, i.value, fr, st)
+                nb = len(fr.breaks)
                 self.exec_block(st.body, fr)
-                if "__live_after_break__" in fr.env:
+                if len(fr.breaks) != nb:
                     self.unsupported(st, fr, "break in unrolled loop")
             return
         # abstract iteration: body once, accumulators recognised
@@ -764,11 +776,18 @@ class Evaluator:
         lc0 = list(fr.live_cond)
         fr.live_cond = lc0 + [Sym("in-loop", (it,))]
         fr.in_loop += 1
+        nb = len(fr.breaks)
+        depth = len(fr.live_cond)
         self.exec_block(st.body, fr)
         fr.in_loop -= 1
-        broke = "__live_after_break__" in fr.env
-        fr.env.pop("__live_after_break__", None)
-        fr.env.pop("__broke__", None)
+        my_breaks = fr.breaks[nb:]
+        del fr.breaks[nb:]
+        broke = bool(my_breaks)
+        end_env = fr.env if fr.live else None
+        for bconds, benv in my_breaks:
+            bc = conj(bconds[depth:])
+            end_env = benv if end_env is None else self.join_env(bc, benv, end_env)
+        fr.env = end_env if end_env is not None else dict(before)
         fr.live = True
         fr.live_cond = lc0
         after = fr.env
@@ -963,6 +982,8 @@ class Evaluator:
     def e_UnaryOp(self, e, fr):
         v = self.eval(e.operand, fr)
         if isinstance(e.op, ast.Not):
+            if isinstance(v, CtxV) and v.maybe_none:
+                return negate(Sym("ctx-present", ()))
             t = self.truth(v)
             return Const(not t) if t is not None else negate(v)
         if isinstance(v, Const) and isinstance(v.value, (int, float)):
@@ -1329,11 +1350,15 @@ class Evaluator:
                 pyt = {"str": str, "int": int, "bool": bool, "float": float, "tuple": tuple, "list": list, "dict": dict}.get(spec.name)
                 if pyt is not None and isinstance(v, Const):
                     return Const(isinstance(v.value, pyt))
+            if isinstance(v, Sym) and v.kind == "call" and v.args and v.args[0] in (".isoformat", "str", ".replace") and isinstance(spec, Builtin):
+                return Const(spec.name == "str")
             return Sym("op", ("isinstance", v, spec))
         if isinstance(v, Obj):
             return Const(any(v.cls.is_subclass_of(c) for c in classes))
         if isinstance(v, (Const, EnumV, Str, ListV)):
             return Const(False)
+        if isinstance(v, Sym) and v.kind == "call" and v.args and v.args[0] in (".isoformat", "str", ".replace", ".lower", ".upper", ".dumps"):
+            return Const(False)  # a str is never an instance of a package class
         return Sym("op", ("isinstance", v, spec))
 
     def call_attr(self, base, m: str, e: ast.Call, fr: Frame):
@@ -1516,6 +1541,8 @@ class Evaluator:
     def _conv_item(self, i, fr, e):
         if isinstance(i, One):
             return One(self.to_str(i.value, "format", fr, e), i.cond)
+        if isinstance(i, CondI):
+            return CondI(i.cond, tuple(self._conv_item(x, fr, e) for x in i.items))
         return RepI(tuple(self._conv_item(x, fr, e) for x in i.body), i.source, i.broke, i.filt)
 
     # ------------------------------------------------------------------ truthiness
@@ -1552,6 +1579,8 @@ class Evaluator:
 
     def as_cond(self, v):
         """simplify a value used as a condition: Phi(c, truthy, falsy) -> c"""
+        if isinstance(v, CtxV) and v.maybe_none:
+            return Sym("ctx-present", ())
         if isinstance(v, Phi):
             ta, tb = self.truth(v.a), self.truth(v.b)
             if ta is True and tb is False:
@@ -1609,6 +1638,9 @@ def walk_parts(s, path_conds=(), visit=None, in_rep=False):
     elif isinstance(s, RepI):
         for i in s.body:
             yield from walk_parts(i, path_conds, visit, True)
+    elif isinstance(s, CondI):
+        for i in s.items:
+            yield from walk_parts(i, path_conds + (s.cond,), visit, in_rep)
     elif isinstance(s, Opaque):
         for i in s.inner:
             yield from walk_parts(i, path_conds, visit, in_rep)
@@ -1648,6 +1680,10 @@ def values_in(v, kinds=(Str,), _seen=None):
             rec(x.value, d + 1)
         elif isinstance(x, RepI):
             for i in x.body:
+                rec(i, d + 1)
+        elif isinstance(x, CondI):
+            rec(x.cond, d + 1)
+            for i in x.items:
                 rec(i, d + 1)
         elif isinstance(x, Opaque):
             for i in x.inner:
